@@ -1,8 +1,10 @@
 package expr
 
 import (
+	"errors"
 	"fmt"
 
+	"github.com/shopspring/decimal"
 	"github.com/verily-src/fhirpath-go/fhirpath/system"
 )
 
@@ -115,6 +117,9 @@ func EvaluateMul(lhs, rhs system.Any) (system.Any, error) {
 
 // EvaluateDiv takes in two system types, and calls the appropriate Div method.
 func EvaluateDiv(lhs, rhs system.Any) (system.Any, error) {
+	if isZero(rhs) {
+		return nil, errDivideByZero
+	}
 	switch left := lhs.(type) {
 	case system.Integer:
 		if right, ok := rhs.(system.Integer); ok {
@@ -141,6 +146,9 @@ func EvaluateDiv(lhs, rhs system.Any) (system.Any, error) {
 
 // EvaluateFloorDiv takes in two system types, and calls the appropriate FloorDiv method.
 func EvaluateFloorDiv(lhs, rhs system.Any) (system.Any, error) {
+	if isZero(rhs) {
+		return nil, errDivideByZero
+	}
 	switch left := lhs.(type) {
 	case system.Integer:
 		if right, ok := rhs.(system.Integer); ok {
@@ -167,6 +175,9 @@ func EvaluateFloorDiv(lhs, rhs system.Any) (system.Any, error) {
 
 // EvaluateMod takes in two system types, and calls the appropriate Mod method.
 func EvaluateMod(lhs, rhs system.Any) (system.Any, error) {
+	if isZero(rhs) {
+		return nil, errDivideByZero
+	}
 	switch left := lhs.(type) {
 	case system.Integer:
 		if right, ok := rhs.(system.Integer); ok {
@@ -192,6 +203,22 @@ func EvaluateMod(lhs, rhs system.Any) (system.Any, error) {
 }
 
 // typeMismatch generates an unsupported operation error.
+// errDivideByZero is raised when a division, div or mod has a zero divisor.
+// ArithmeticExpression turns it into an empty result, as the FHIRPath spec
+// requires.
+var errDivideByZero = errors.New("division by zero")
+
+// isZero reports whether the given value is an Integer or Decimal zero.
+func isZero(value system.Any) bool {
+	switch v := value.(type) {
+	case system.Integer:
+		return v == 0
+	case system.Decimal:
+		return decimal.Decimal(v).IsZero()
+	}
+	return false
+}
+
 func typeMismatch(op Operator, lhs, rhs system.Any) error {
 	return fmt.Errorf("%w: %T %s %T", system.ErrTypeMismatch, lhs, op, rhs)
 }
